@@ -14,6 +14,7 @@ EXPLANATION = ('Byte-exact reassembly under arbitrary interleaving, chunk sizes 
                'last_instance() (superseded() only for size accounting), finished is set only by a zero-size header; (R19.4) both sides use the '
                'same header type, serialization config and file magic.')
 NOT_DECIDED = ['byte-exact reassembly under arbitrary interleaving and chunk sizes (value-level); of torn files only the header case is decided (R19.5), a file cut inside chunk data is not']
+RELATED = {'C06': ['R06.1', 'R06.4', 'R06.5', 'R06.8', 'R06.9']}
 ASSUMPTIONS = []
 WS = 'hyperqueue::worker::streamer::'
 PG = 'hyperqueue::worker::start::program::'
